@@ -157,20 +157,33 @@ def run_property(spec, tier, seed):
     stats["distinct_nontrivial"] = len(seen_nontrivial)
 
     with open(os.path.join(core.BUILD, "last_%s.json" % pid), "w") as f:
-        json.dump({"disagreements": [{"stream": st.name, "case": c.rust, "impl": il, "model": ml} for (st, c, il, ml) in disagreements[:200]],
-                   "oracle": [{"stream": st.name, "case": c.rust, "impl": il, "why": why} for (st, c, il, ml, why) in oracle_fail[:200]]}, f, indent=1)
+        json.dump({"disagreements": [{"stream": st.name, "case": c.rust, "impl": il, "model": ml, "classes": c.meta.get("classes"), "class_pos": c.meta.get("class_pos")} for (st, c, il, ml) in disagreements[:200]],
+                   "oracle": [{"stream": st.name, "case": c.rust, "impl": il, "why": (why[0] if isinstance(why, tuple) else why)} for (st, c, il, ml, why) in oracle_fail[:200]]}, f, indent=1)
 
     # 5. classification
-    def classify(st, c):
+    def classify(st, c, first_div=None):
+        """the open finding that excuses this case, if any: the case lies in the finding's class and the divergence does
+        not start before the point of the history from which the recorded defect can show"""
         for k in open_known:
             if spec.known_class(k, c):
+                pos = c.meta.get("class_pos", {}).get(k.get("class"))
+                if pos is not None and first_div is not None and first_div < pos:
+                    continue
                 return k
         return None
+
+    def first_difference(il, ml):
+        a, b = il.split(" | "), (ml or "").split(" | ")
+        return next((i for i, (x, y) in enumerate(zip(a, b)) if x != y), min(len(a), len(b)))
 
     reported_known = set()
     new_oracle = []
     for (st, c, il, ml, why) in oracle_fail:
-        k = classify(st, c)
+        at = why[1] if isinstance(why, tuple) else None
+        why = why[0] if isinstance(why, tuple) else why
+        if at is not None and ml is not None and st.reference and il != ml:
+            at = min(at, first_difference(il, ml))
+        k = classify(st, c, at)
         if k and not st.reference and ml is not None and il != ml:
             k = None      # inside a recorded class, but not the recorded behaviour (the faithful model answers differently)
         if k:
@@ -181,7 +194,7 @@ def run_property(spec, tier, seed):
     for (st, c, il, ml) in disagreements:
         # a faithful model already behaves in the recorded defective way, so a difference between it and the
         # code is never excused by a finding; only answers that differ from a *reference* (RefDB) can be
-        k = classify(st, c) if st.reference else None
+        k = classify(st, c, first_difference(il, ml)) if st.reference else None
         if k:
             reported_known.add(k["id"])
         else:
@@ -233,7 +246,9 @@ def run_property(spec, tier, seed):
                 il = st.canon(raw) if st.canon else raw
                 c.meta["impl"], c.meta["impl_raw"] = il, raw
                 why = st.oracle(c, il)
-                if why and not classify(st, c):
+                at = why[1] if isinstance(why, tuple) else None
+                why = why[0] if isinstance(why, tuple) else why
+                if why and not classify(st, c, at):
                     new_oracle.append((st, c, il, None, why))
                     break
         log("search: %d further cases on the implementation, %s" % (searched, "failing input found" if new_oracle else "no failing input"))
